@@ -173,7 +173,7 @@ def callback_family(rng=None):
     same observation (and ordinary requests) arrive, then the answer: the callback's request must get it, every notification
     must reach the callback once and in order."""
     out = []
-    combos = [(tr, q, x, m) for tr in ("udp", "tcp") for q in (16, 1, 0) for x in ("g", "n") for m in (1, 2)]
+    combos = [(tr, q, x, m) for tr in ("udp", "tcp") for q in (16, 0) for x in ("g", "n") for m in (1, 2)]
     if rng is not None:
         combos = [rng.choice(combos) for _ in range(6)]
     for tr, q, x, m in combos:
@@ -271,8 +271,66 @@ def canon(line, ops=None):
     return ";".join(",".join(sorted(seg.split(","))) for seg in segs)
 
 
+def _run_once(ctx, exe, lines, tag, hang_s=None):
+    """One run of the harness binary (as common.run_test_harness, without its bookkeeping): the lines it answered."""
+    import subprocess
+    inp = os.path.join(ctx.work, tag + ".in")
+    outp = os.path.join(ctx.work, tag + ".out")
+    open(inp, "w").write("\n".join(lines) + "\n")
+    if os.path.exists(outp):
+        os.remove(outp)
+    e = dict(os.environ, VERIF_IN=inp, VERIF_OUT=outp, VERIF_SEED=str(ctx.seed), VERIF_TIER=ctx.tier)
+    if hang_s:
+        e["VERIF_HANG_S"] = str(hang_s)
+    try:
+        subprocess.run([exe, "-test.run", "^TestC11$", "-test.timeout", "1500s"], cwd=ctx.work, env=e,
+                       stdout=subprocess.PIPE, stderr=subprocess.STDOUT, text=True, timeout=1530)
+    except subprocess.TimeoutExpired:
+        pass
+    return open(outp).read().splitlines() if os.path.exists(outp) else []
+
+
+def run_resilient(ctx, art, lines, tag):
+    """The harness answers every line and flushes.  A history in which a goroutine of the connection waits for a lock can never
+    end under synctest (the bubble is never idle, virtual time stands still): the harness's real-time watchdog answers `hang`
+    and ends the process; a panic on a library goroutine ends it without an answer.  Either way the remaining lines are run in
+    a new process.  A `hang` is confirmed by running the line alone with a longer limit before it is reported."""
+    res = []
+    rest = list(lines)
+    incidents = 0
+    confirmed = 0
+    while rest:
+        out = _run_once(ctx, art["test"], rest, tag)[:len(rest)]
+        res += out
+        if len(out) == len(rest):
+            break
+        incidents += 1
+        if incidents > 300:
+            ctx.broken.append(("correspondence", "harness TestC11 ended prematurely more than 300 times", ""))
+            return None
+        if out and out[-1] == "hang":
+            if confirmed < 3:               # once three hangs are confirmed the defect is established; later ones are taken as reported
+                again = _run_once(ctx, art["test"], [rest[len(out) - 1]], tag + "h", hang_s=30)
+                if again and again[0] != "hang":
+                    res[-1] = again[0]      # slow machine, not a hang
+                else:
+                    confirmed += 1
+        else:
+            res.append("panic:process-crash")
+            out = out + [None]
+        rest = rest[len(out):]
+        if incidents >= 12 and rest:
+            # the check has failed with concrete inputs; the rest of the search is not worth minutes of real-time watchdogs
+            res += ["skipped"] * len(rest)
+            ctx.notes.append("%d lines not run after 12 hangs / crashes" % len(rest))
+            break
+    if incidents:
+        ctx.notes.append("the harness process ended prematurely %d time(s) (hang or crash of a library goroutine); remaining lines were run in new processes" % incidents)
+    return res
+
+
 def evaluate(ctx, art, lines, tag="x"):
-    impl = common.run_test_harness(ctx, art["test"], "TestC11", lines, tag=tag, timeout=1500)
+    impl = run_resilient(ctx, art, lines, tag)
     if impl is None or len(impl) != len(lines):
         return None
     rc, model, _ = common.pipe_lines([art["driver"], "model"], lines)
@@ -296,7 +354,7 @@ def explore(ctx, art):
     # a line on which model and implementation disagree is run once more on its own (fresh process): goroutine scheduling
     # inside one virtual instant is the Go runtime's, and a rare different interleaving must not be reported as a broken
     # correspondence; a disagreement that shows again is.
-    suspects = [r[0] for r in res if "|" in r[4] and not r[4].startswith("racy") and
+    suspects = [r[0] for r in res if "|" in r[4] and not r[4].startswith("racy") and r[1] not in ("hang", "skipped") and
                 canon(r[1], r[0].split()[5:]) != canon(r[2], r[0].split()[5:])]
     retried = {}
     if suspects and len(suspects) <= 40:
@@ -313,6 +371,19 @@ def explore(ctx, art):
         ctx.cov["evaluations"] += 1
         f = line.split()
         ctx.count("%s-queue%s-limits%s/%s" % (f[1], f[2], f[3], f[4]))
+        if impl == "skipped":
+            ctx.cov["evaluations"] -= 1
+            ctx.count("not run after repeated hangs")
+            continue
+        if impl == "hang":
+            # confirmed by a second run on its own with a 60 s limit
+            ctx.violations.append(common.Violation(
+                "nested-stall", "C11:nested-stall:hang:" + line,
+                "%s: the history never ends: a goroutine of the connection waits for a lock (not for a channel or the clock), so under "
+                "synctest the bubble is never idle and virtual time stands still; on a real clock the messages queued behind it are not "
+                "processed until the lock holder's own deadline" % line, {"input": [line], "observed": impl}))
+            ctx.count("judge:nested-stall:hang")
+            continue
         if impl.startswith("panic") or impl in ("bad-op", "conn-error"):
             ctx.violations.append(common.Violation("no-crash", "C11:no-crash:" + line, "%s -> %s" % (line, impl),
                                                    {"input": [line], "observed": impl}))
